@@ -370,7 +370,10 @@ def iter_noret(ctx: Ctx) -> List[Ob]:
     early = []
     if tr:
         inside = {id(x) for x in ast.walk(tr[0])}
-        early = [n for n in iter_own(g.node) if isinstance(n, ast.Return) and id(n) not in inside]
+        from .util import stmts_before
+
+        # (a `return` behind the try - `return result` - is not an early one)
+        early = [n for n in iter_own(g.node) if isinstance(n, ast.Return) and id(n) not in inside and not any(s_ is tr[0] for s_ in stmts_before(ctx, g, n))]
     obs.append(ctx.ob("ITER-NORET", ["C06"], g, "visit() has no return before the traversal starts", None, not early, "" if not early else "early exit skips the start node"))
     return obs
 
